@@ -510,7 +510,8 @@ impl Clone for %s {
             self.emit('\n' + c.after, 'spec', src_file=c.src)
         if canary_on and not in_trait_impl:
             # vacuity canary: a renamed copy of the function with `ensures false`; callers keep seeing the real one
-            hb2 = re.sub(r'\bfn\s+%s\b' % re.escape(it.name), 'fn %s__verif_canary' % it.name, head_and_body, count=1)
+            nm_ = it.name + ('__verif_impl' if as_clone else '')
+            hb2 = re.sub(r'\bfn\s+%s\b' % re.escape(nm_), 'fn %s__verif_canary' % it.name, head_and_body, count=1)
             caddr = addr + '#canary'
             segs2 = self.splice_fn(rel, caddr, hb2, it, c, status, line_of(it.head_start), canary_mode='clone')
             for sg in segs2:
